@@ -76,7 +76,7 @@ def gen_small(rng, cfg, k):
     return S.gen_history(rng, cfg, 40, dom=cfg.n + 3, ops_filter=lambda op: op in ('ins', 'era', 'find', 'has', 'cnt', 'insm', 'clr'))
 
 def run(ctx):
-    ok = ctx.lean(['AmcVerif.Props.C19', 'AmcVerif.Props.C19b'], extra_modules=['AmcVerif.Bridge.FlatSetBridge'])
+    ok = ctx.lean(['AmcVerif.Props.C19', 'AmcVerif.Props.C19b', 'AmcVerif.Props.C03d'], extra_modules=['AmcVerif.Bridge.FlatSetBridge', 'AmcVerif.Bridge.FlatSetHetBridge'])
     nf = 70 if ctx.tier == 'quick' else 90
     cfgs = [S.SetCfg('flat', cmp='less', pool=2), S.SetCfg('flat', cmp='greater', uvec='std', pool=2)]
     SC.run(ctx, cfgs, gen_lookup, nf, preds=(SC.oracle_pred, count_pred), nontrivial=lambda c, l, o: len(l) > 20, label='C19 lookup counts')
